@@ -27,7 +27,8 @@
 (*   AddLocal/RemoveLocal  shard_manager.go:RegisterShard / UnregisterShard *)
 (*   SetView/Leave   shard_manager.go:MergeRemoteState / NotifyLeave (the   *)
 (*                   only writers of remoteNodeStates)                      *)
-(*   Hold/Unhold     the connection to a peer's server is slow to get ready *)
+(*   Hold/Unhold     a peer's server is unreachable for a while: connections *)
+(*                   to it die and new ones are slow to get ready           *)
 (*   Break           the transport between two instances breaks            *)
 (*   Begin(i)        Start loop (timer tick or Notify) -> Reconcile-        *)
 (*                   PeerStreams: GetLocalShards x GetRemoteShardsForPeer   *)
@@ -125,9 +126,12 @@ Leave(i, p) ==
   /\ Env /\ i # p /\ view[i][p] # {}
   /\ view' = [view EXCEPT ![i][p] = {}]
   /\ UNCHANGED <<local, st, rtab, stab, pc, des, todo, hold, frozen, msgs, wire>>
+\* the server of j becomes unreachable: established connections to it die, new ones do not get ready until Unhold
 Hold(j) ==
   /\ Env /\ AllowHold /\ ~hold[j] /\ hold' = [hold EXCEPT ![j] = TRUE]
-  /\ UNCHANGED <<local, view, st, rtab, stab, pc, des, todo, frozen, msgs, wire>>
+  /\ st' = [n \in Sid |-> IF st[n].srv = j /\ (st[n].c \in {"open", "exiting"} \/ st[n].s \in {"accepted", "exiting"})
+                           THEN [st[n] EXCEPT !.brk = TRUE] ELSE st[n]]
+  /\ UNCHANGED <<local, view, rtab, stab, pc, des, todo, frozen, msgs, wire>>
 Unhold(j) ==
   /\ ~frozen /\ hold[j] /\ hold' = [hold EXCEPT ![j] = FALSE]
   /\ UNCHANGED <<local, view, st, rtab, stab, pc, des, todo, frozen, nenv, msgs, wire>>
